@@ -276,6 +276,34 @@ theorem fingerprint_env_only (stepEnv : Env) (fpVars : List Str) (hn : (keys ste
         exact ⟨kv, hkv, hxk⟩
       exact ((lookup_none_iff _ _).mp hv) this
 
+/-- the command line of a fingerprint script never makes bash read `~/.bashrc`, whatever Bob's standard input is
+(F-C13-1: without `--norc` a socket stdin made `bash -c` source the user's rc file); step scripts are run as script
+files, which never read it -/
+theorem fingerprint_no_rc (bash script : Str) (trace stdinIsSocket : Bool) :
+    bashReadsRc (setupFingerprintArgs bash trace script) stdinIsSocket = false ∧
+    ∀ (abs : Str → Str) (s : Spec) (exec : Str), bash ≠ ['-', 'c'] → exec ≠ ['-', 'c'] → (∀ a ∈ s.args, abs a ≠ ['-', 'c']) →
+      bashReadsRc (setupCallArgs abs s bash exec trace) stdinIsSocket = false := by
+  have hn : ['-', '-', 'n', 'o', 'r', 'c'] ∈ Consts.C13.fingerprintBashOpts := by decide
+  constructor
+  · have hmem : ['-', '-', 'n', 'o', 'r', 'c'] ∈ setupFingerprintArgs bash trace script := by
+      unfold setupFingerprintArgs
+      simp only [List.mem_append]
+      exact Or.inl (Or.inl (Or.inr hn))
+    simp only [bashReadsRc, Bool.and_eq_false_iff, Bool.not_eq_false', List.contains_eq_mem, decide_eq_true_eq,
+      decide_eq_false_iff_not]
+    exact Or.inr hmem
+  · intro abs s exec h1 h2 h3
+    have hnot : ['-', 'c'] ∉ setupCallArgs abs s bash exec trace := by
+      unfold setupCallArgs
+      simp only [List.mem_append, List.mem_cons, List.mem_nil_iff, or_false, List.mem_map, not_or]
+      refine ⟨⟨⟨fun e => h1 e.symm, ?_⟩, ⟨by decide, fun e => h2 e.symm⟩⟩, ?_⟩
+      · cases trace <;> simp
+      · rintro ⟨a, ha, e⟩
+        exact h3 a ha e
+    simp only [bashReadsRc, Bool.and_eq_false_iff, Bool.not_eq_false', List.contains_eq_mem, decide_eq_true_eq,
+      decide_eq_false_iff_not]
+    exact Or.inl (Or.inr hnot)
+
 /-! ### sandbox -/
 
 /-- every dependency mount of a step comes from a VALID declared dependency: an argument, a used tool, the
